@@ -692,3 +692,54 @@ func ruleK6(p *Prog, r *Report) {
 	}
 	r.Floor(R, "calls that pass a comparator", 20, n)
 }
+
+// S20 a commit decides "nothing to do" by looking at the write set.
+//
+// Obligation per commit entry point: every success return is preceded, on every path, by the collection of the owned
+// keys of the write set (the collector call, or a range over `deltas`). A shortcut that returns success from a
+// companion flag ("nothing was stored since the last commit") is only as good as the flag's upkeep: cleared before the
+// fallible work and not restored on failure, it makes every retry after a failed commit a no-op that reports success
+// while the write set is still full.
+func ruleS20(p *Prog, r *Report) {
+	const R = "S20"
+	n := 0
+	for _, f := range p.commitGraph() {
+		if !isCommitEntry(f) {
+			continue
+		}
+		n++
+		collects := func(z ssa.Instruction) bool {
+			if fr, _, ok := rangeOverField(z); ok && fr.is(storageT, "deltas") {
+				return true
+			}
+			c, ok := z.(*ssa.Call)
+			if !ok {
+				return false
+			}
+			// len(s.deltas): the size of the write set itself
+			if bi, isB := c.Call.Value.(*ssa.Builtin); isB && bi.Name() == "len" && len(c.Call.Args) == 1 {
+				if lf, ok := asLoadedField(c.Call.Args[0]); ok && lf.is(storageT, "deltas") {
+					return true
+				}
+			}
+			g := c.Call.StaticCallee()
+			if g == nil || recvName(g) != storageT || len(g.Blocks) == 0 {
+				return false
+			}
+			found := false
+			eachInstrDeep(g, func(_ *ssa.Function, y ssa.Instruction) {
+				if fr, _, ok := rangeOverField(y); ok && fr.is(storageT, "deltas") {
+					found = true
+				}
+			})
+			return found
+		}
+		bad := successReturnAvoiding(f, nil, collects)
+		pos := p.Pos(f.Pos())
+		if bad != nil {
+			pos = p.InstrPos(bad)
+		}
+		r.Decide(bad == nil, R, "looks-at-the-write-set:"+p.Name(f), pos, "every success return comes after the owned keys of the write set were collected", "the commit can report success without having looked at the write set (a shortcut decided by something else - a flag, a counter): whenever that something is out of step with the write set, pending changes stay unwritten while the commit says they were written")
+	}
+	r.Floor(R, "commit entry points", 2, n)
+}
